@@ -15,4 +15,4 @@ ASSUMPTIONS = ["itertools.groupby groups adjacent equal keys; ChainMap lookup or
 
 
 def run(project, rep):
-    G.j_rules(project, rep)
+    rep.run(G.j_rules, project, rep)
